@@ -19,6 +19,16 @@ def init_engine():
     if os.path.exists(path):
         os.remove(path)
     impl.init(db_url='sqlite:///' + path)
+    _DB['path'] = path
+    import atexit
+
+    def _cleanup():
+        for f in [path] + list(_DB['snap'].values()):
+            try:
+                os.remove(f)
+            except OSError:
+                pass
+    atexit.register(_cleanup)
     return path
 
 
@@ -37,12 +47,31 @@ class Scenario(object):
         return {'name': self.name, 'setup': self.setup, 'requests': self.requests, 'guards': self.guards}
 
 
+_DB = {'path': None, 'app': None, 'snap': {}}
+
+
 def start(scn):
-    app = impl.App()
+    """Application positioned at the scenario's start state. The populated database file is
+    snapshotted the first time and restored by file copy afterwards (NullPool: no open connections)."""
+    import shutil
+    key = repr(scn.setup)
+    if _DB['app'] is None:
+        _DB['app'] = impl.App()
+    app = _DB['app']
+    path = _DB['path']
+    if path and key in _DB['snap']:
+        shutil.copyfile(_DB['snap'][key], path)
+        return app
+    fresh = impl.App()
+    _DB['app'] = fresh
     for op in scn.setup:
-        r, obs = hist.observe(app, op)
+        r, obs = hist.observe(fresh, op)
         assert obs[0] < 300, ('scenario setup failed', scn.name, op, obs, r.body[:200])
-    return app
+    if path:
+        snap = '%s.snap%d' % (path, len(_DB['snap']))
+        shutil.copyfile(path, snap)
+        _DB['snap'][key] = snap
+    return fresh
 
 
 def run_schedule(scn, schedule):
@@ -57,7 +86,6 @@ def run_schedule(scn, schedule):
         else:
             code = ops.ERROR_CODES.get(r.error_code(), 99) if r.status >= 400 else 0
             obs.append((r.status, code, ops.resp_gen(op, r), None))
-    app.close()
     return obs, dump, trace, used
 
 
@@ -69,7 +97,6 @@ def run_serial(scn, order):
         r, o = hist.observe(app, scn.requests[i])
         obs.append(o)
     dump = ops.canon_dump(app.raw_dump())
-    app.close()
     return obs, dump
 
 
